@@ -21,7 +21,7 @@ BUDGET_S = {"quick": 150, "thorough": 3000}
 
 DEPTH = {"quick": 2, "thorough": 3}
 SLICES = {"quick": 4, "thorough": 24}
-VARIANTS = {"quick": (0, 1, 2), "thorough": (0, 1, 2, 3)}
+VARIANTS = {"quick": (0, 1), "thorough": (0, 1, 2, 3)}
 RESTRICTED = ("R3", "R5", "R6", "R8")
 
 
@@ -88,7 +88,7 @@ def _cfg_json(typecfg):
 def _new_out():
     return {"counts": {"evaluations": 0, "calls_compared": 0, "cases_with_field_errors": 0, "states": 0,
                        "transitions": 0, "discarded_invalid": 0, "nontrivial_states": 0},
-            "tables": {"rewrite_kinds": {}, "rewrite_kinds_discarded": {}}, "sets": {"state_hashes": set()},
+            "tables": {"rewrite_kinds": {}, "rewrite_kinds_discarded": {}}, "sets": {"state_hashes": set(), "nontrivial_hashes": set()},
             "samples": [], "violations": [], "machinery": []}
 
 
@@ -106,7 +106,7 @@ def run_shard(item):
             _shard_envelope(item, out)
     except doc.MachineryError as e:
         out["machinery"].append(str(e)[:500])
-    out["sets"]["state_hashes"] = list(out["sets"]["state_hashes"])
+    out["sets"] = {k: list(v) for k, v in out["sets"].items()}
     return out
 
 
@@ -124,7 +124,7 @@ def _shard_sel(item, out):
         out["counts"]["states"] += 1
         out["sets"]["state_hashes"].add(explore.h64(text))
         if level >= 2 and len(set(trail)) >= 2:
-            out["counts"]["nontrivial_states"] += 1
+            out["sets"]["nontrivial_hashes"].add(explore.h64(text))
         if len(out["samples"]) < 2 and level == depth:
             out["samples"].append({"document": text, "rewrites": list(trail)})
     if stats:
@@ -165,8 +165,8 @@ def _shard_types(item, out):
             text = run_cases(schema, engine, d, ("types-cfg%d-%s" % (cfg, style),), VARIANTS[tier], out, roots=roots,
                              typecfg=typecfg)
             out["counts"]["states"] += 1
-            out["counts"]["nontrivial_states"] += 1
             out["sets"]["state_hashes"].add(explore.h64("types%d%s%s" % (cfg, style, text)))
+            out["sets"]["nontrivial_hashes"].add(explore.h64("types%d%s%s" % (cfg, style, text)))
     out["samples"].append({"type_resolver_config": _cfg_json(typecfg), "documents": TYPE_DOCS[:1]})
 
 
@@ -293,7 +293,7 @@ def finish(agg, tier):
         "transitions": c.get("transitions", 0),
         "traces_validated_against_impl": c.get("evaluations", 0),
         "evaluations": c.get("evaluations", 0),
-        "distinct_nontrivial": c.get("nontrivial_states", 0),
+        "distinct_nontrivial": len(agg.sets.get("nontrivial_hashes", ())),
         "rule": "states = distinct canonical documents (valid by E5's 29-rule validator) within d=%d rewrites of %d seeds over "
                 "schema K, plus type-resolver / default-resolver / envelope configurations; each state is executed for every "
                 "operation name x variable assignment x %d data trees on the real engine and compared with E5 (ordered data, "
